@@ -652,6 +652,7 @@ func framerRules(r *engine.Report, p *engine.Program) {
 	streamReaderKeepsBytes(r, p)
 	sizeIndependentPath(r, p)
 	nameHashRules(r, p)
+	bindOnceRule(r, p, "R3-delivery")
 	// path lengths up to the hop limit: the forwarding budget is tested before it is decremented
 	// and decremented exactly once per relay (clauses decided by C10's rules)
 	{
